@@ -226,14 +226,16 @@ public:
     {
         Tcp::Transport* tr = transport(); int fd = peer->fd();
         std::vector<WriteSpec> ws; bool foreign; std::string dir;
-        { std::lock_guard<std::mutex> g(WR.m); WR.targetFd = fd; ws = WR.writes; foreign = WR.foreign; dir = WR.dir;
-          WR.promises.assign(ws.size(), "pending"); WR.settles.assign(ws.size(), 0); }
-        auto doAll = [tr, fd, ws, dir] {
+        size_t base;
+        { std::lock_guard<std::mutex> g(WR.m); WR.targetFd = fd; ws = WR.writes; foreign = WR.foreign; dir = WR.dir; base = WR.promises.size();
+          WR.promises.resize(base + ws.size(), "pending"); WR.settles.resize(base + ws.size(), 0); WR.issued = 0; }
+        auto doAll = [tr, fd, ws, dir, base] {
             for (size_t i = 0; i < ws.size(); ++i) {
                 std::string data(ws[i].size, '\0');
                 for (size_t p = 0; p < data.size(); ++p) data[p] = static_cast<char>(patternByte(i, p));
-                auto onOk = [i](ssize_t n) { std::lock_guard<std::mutex> g(WR.m); WR.promises[i] = "ok:" + std::to_string(n); ++WR.settles[i]; WR.cv.notify_all(); };
-                auto onRej = [i](std::exception_ptr) { std::lock_guard<std::mutex> g(WR.m); WR.promises[i] = "rej"; ++WR.settles[i]; WR.cv.notify_all(); };
+                const size_t slot = base + i;
+                auto onOk = [slot](ssize_t n) { std::lock_guard<std::mutex> g(WR.m); WR.promises[slot] = "ok:" + std::to_string(n); ++WR.settles[slot]; WR.cv.notify_all(); };
+                auto onRej = [slot](std::exception_ptr) { std::lock_guard<std::mutex> g(WR.m); WR.promises[slot] = "rej"; ++WR.settles[slot]; WR.cv.notify_all(); };
                 if (ws[i].file) {
                     std::string path = dir + "/wr-" + std::to_string(getpid()) + "-" + std::to_string(i) + ".bin";
                     { FILE* f = fopen(path.c_str(), "wb"); if (f) { fwrite(data.data(), 1, data.size(), f); fclose(f); } }
@@ -252,6 +254,8 @@ public:
     void onRequest(const Http::Request& req, Http::ResponseWriter response) override
     {
         RespScript sc; { std::lock_guard<std::mutex> g(G.m); sc = G.script; }
+        // "/slow<ms>": keep this worker busy for a while (used to make events coalesce on other connections)
+        if (req.resource().rfind("/slow", 0) == 0) std::this_thread::sleep_for(std::chrono::milliseconds(atoi(req.resource().c_str() + 5)));
         std::string result = "none", err; long size = -1;
         std::string seen = dumpRequest(req);
         try {
@@ -655,7 +659,8 @@ std::string opTimeout(const std::vector<std::string>& w)
 
 // life <hdrMs> <threads> <scripts a,b,c...>: one connection per script, all opened first, then the actions are played position by
 // position across the connections.  Actions: R full request + read the response, P partial request, C close, H half-close (shutdown
-// WR, read to EOF, close), X reset (SO_LINGER 0), T silence for hdr + 1300 ms (then read what the server sent), W wait 50 ms
+// WR, read to EOF, close), X reset (SO_LINGER 0), T silence for hdr + 1300 ms (then read what the server sent), W wait 50 ms,
+// A abort: partial request + close while the worker is busy with another connection
 std::string opLife(const std::vector<std::string>& w)
 {
     if (w.size() != 4) return "bad-op";
@@ -685,6 +690,13 @@ std::string opLife(const std::vector<std::string>& w)
             char a = scripts[i][j]; Conn& k = cs[i];
             if (a == 'R') { sendAll(k.fd, REQ); k.seen += std::to_string(statusOf(readResponse(k.fd, 300))) + ";"; }
             else if (a == 'P') { sendAll(k.fd, REQ.substr(0, 25)); std::this_thread::sleep_for(std::chrono::milliseconds(20)); }
+            else if (a == 'A') {
+                // abort in the middle of a request while the worker is busy elsewhere: the data and the FIN reach the server as ONE readiness event
+                int helper = connectTo(port); sendAll(helper, "GET /slow40 HTTP/1.1\r\nHost: h\r\n\r\n");
+                std::this_thread::sleep_for(std::chrono::milliseconds(10));
+                sendAll(k.fd, REQ.substr(0, 25)); ::close(k.fd); k.open = false;
+                readResponse(helper, 400); ::close(helper);
+            }
             else if (a == 'C') { ::close(k.fd); k.open = false; }
             else if (a == 'H') { ::shutdown(k.fd, SHUT_WR); bool cl; readResponse(k.fd, 300, &cl, false); ::close(k.fd); k.open = false; }
             else if (a == 'X') { linger lg { 1, 0 }; ::setsockopt(k.fd, SOL_SOCKET, SO_LINGER, &lg, sizeof lg); ::close(k.fd); k.open = false; }
@@ -780,8 +792,9 @@ std::string opWr(const std::vector<std::string>& w)
 // holdMs; then A reads everything.
 std::string opStall(const std::vector<std::string>& w)
 {
-    if (w.size() != 5) return "bad-op";
+    if (w.size() != 5 && w.size() != 6) return "bad-op";
     int nw = atoi(w[1].c_str()); size_t size = strtoul(w[2].c_str(), nullptr, 10); int holdMs = atoi(w[3].c_str()); int nB = atoi(w[4].c_str());
+    bool second = w.size() == 6 && w[5] == "1";
     Cfg c; c.threads = 1; uint16_t port = ensureEndpoint(c);
     RespScript sc; sc.mode = "send"; sc.code = 200; sc.chunks = { "ok" };
     { std::lock_guard<std::mutex> g(G.m); G.script = sc; }
@@ -811,8 +824,15 @@ std::string opStall(const std::vector<std::string>& w)
         std::this_thread::sleep_for(std::chrono::milliseconds(nB ? holdMs / nB : holdMs));
     }
     if (nB == 0) std::this_thread::sleep_for(std::chrono::milliseconds(holdMs));
-    ::close(fb);
     long attemptsDuring; { std::lock_guard<std::mutex> g(WR.m); attemptsDuring = WR.attempts - attemptsBefore; }
+    if (second) {
+        // the worker is kept busy by B while A both asks for a second batch and starts to read: A's socket becomes readable and
+        // writable in one readiness event
+        sendAll(fb, "GET /slow300 HTTP/1.1\r\nHost: h\r\n\r\n");
+        std::this_thread::sleep_for(std::chrono::milliseconds(100));
+        sendAll(fa, "go");
+        total *= 2;
+    }
     // A starts reading
     std::string got; std::vector<char> tmp(1 << 20);
     for (;;) {
@@ -826,11 +846,14 @@ std::string opStall(const std::vector<std::string>& w)
         std::unique_lock<std::mutex> lk(WR.m);
         WR.cv.wait_for(lk, std::chrono::milliseconds(500), [&] { if (!WR.issued) return false; for (auto& p : WR.promises) if (p == "pending") return false; return true; });
     }
+    if (second) readResponse(fb, 600);
+    ::close(fb);
     ::close(fa);
     std::this_thread::sleep_for(std::chrono::milliseconds(20));
     Pistache::Verif::writeHook = nullptr;
     size_t firstDiff = std::string::npos, pos = 0;
-    for (size_t i = 0; i < ws.size() && firstDiff == std::string::npos; ++i)
+    for (int rep = 0; rep < (second ? 2 : 1) && firstDiff == std::string::npos; ++rep)
+      for (size_t i = 0; i < ws.size() && firstDiff == std::string::npos; ++i)
         for (size_t p = 0; p < ws[i].size; ++p, ++pos)
             if (pos >= got.size() || static_cast<unsigned char>(got[pos]) != patternByte(i, p)) { firstDiff = pos; break; }
     if (firstDiff == std::string::npos && got.size() != total) firstDiff = total;
